@@ -23,6 +23,7 @@ type pipeHalf struct {
 	deadline time.Time
 	timer    *time.Timer
 	limit    int // >0: bounded buffer, Write blocks while full (slow consumer)
+	wbroken  bool // writes into this half fail although the reader has not closed (peer vanished: RST seen by writers first)
 	total    int64
 }
 
@@ -90,7 +91,7 @@ func (c *Conn) Write(p []byte) (int, error) {
 	h.mu.Lock()
 	defer h.mu.Unlock()
 	for {
-		if h.eof || h.rclosed {
+		if h.eof || h.rclosed || h.wbroken {
 			return 0, errClosed
 		}
 		if h.limit > 0 && len(h.buf) >= h.limit {
@@ -201,6 +202,16 @@ func (c *Conn) Unread() int {
 	h.mu.Lock()
 	defer h.mu.Unlock()
 	return len(h.buf)
+}
+
+// BreakPeerWrites makes every later write of the peer fail while its reads
+// keep blocking: the order in which a dying TCP connection is noticed by the
+// writing and the reading goroutine is not defined.
+func (c *Conn) BreakPeerWrites() {
+	c.rd.mu.Lock()
+	c.rd.wbroken = true
+	c.rd.cond.Broadcast()
+	c.rd.mu.Unlock()
 }
 
 // SetPeerWriteLimit bounds the buffer of bytes travelling towards this end
